@@ -2,6 +2,9 @@ package props
 
 import (
 	"fmt"
+	"go/ast"
+	"go/token"
+	"go/types"
 	"regexp"
 	"strings"
 
@@ -10,7 +13,7 @@ import (
 
 func init() { Registry["C05"] = runC05 }
 
-const explanationC05 = "Decides structural necessary conditions of C05: (R05.1) the generated error encoder falls back to the default encoder for undeclared errors and for errors without a name, and every declared arm returns (template parse tree); (R05.2/R05.3) the default error encoder writes exactly one response per path in the order negotiate-encoder ≺ formatter ≺ WriteHeader(status of the formatted response) ≺ Encode, and every encodeError in the handler template is followed by return; (R05.4) the default HTTP status table over all flag vectors × special name; (R05.5) non-service errors are re-encoded as goa.Fault in both transports and the error constructors pass the documented (timeout, temporary, fault) triples to fields of the same name; (R05.6) like-named field fidelity of the wire forms; (R05.7) the validation/decoding error constructors are permanent errors with the standard names; (R05.8) the error name→response table built by HTTPEndpointExpr.Prepare has no stale search flag, and the goa-error header constant is shared by encoder and decoder templates; (R05.9) no template range body (error arms, response arms) replaces its element by a constant index into the collection it iterates; (R05.10) error attributes in headers/cookies use the wire name on both sides (shared R02.4); shared R15.1 (client codec choice) and R18.1 (merging never drops a recorded error). shared R02.1 (copies of a mapped attribute keep both name tables inverse of each other: inherited error responses keep their header/cookie names). (R05.11) no status is assigned to a response after its DSL function has run (shared with C03). NOT decided: name-based dispatch for arbitrary designs end to end (needs execution of generated code), equality of attribute values across the wire."
+const explanationC05 = "Decides structural necessary conditions of C05: (R05.1) the generated error encoder falls back to the default encoder for undeclared errors and for errors without a name, and every declared arm returns (template parse tree); (R05.2/R05.3) the default error encoder writes exactly one response per path in the order negotiate-encoder ≺ formatter ≺ WriteHeader(status of the formatted response) ≺ Encode, and every encodeError in the handler template is followed by return; (R05.4) the default HTTP status table over all flag vectors × special name; (R05.5) non-service errors are re-encoded as goa.Fault in both transports and the error constructors pass the documented (timeout, temporary, fault) triples to fields of the same name; (R05.6) like-named field fidelity of the wire forms; (R05.7) the validation/decoding error constructors are permanent errors with the standard names; (R05.8) the error name→response table built by HTTPEndpointExpr.Prepare has no stale search flag, and the goa-error header constant is shared by encoder and decoder templates; (R05.9) no template range body (error arms, response arms) replaces its element by a constant index into the collection it iterates; (R05.10) error attributes in headers/cookies use the wire name on both sides (shared R02.4); shared R15.1 (client codec choice) and R18.1 (merging never drops a recorded error). shared R02.1 (copies of a mapped attribute keep both name tables inverse of each other: inherited error responses keep their header/cookie names). (R05.11) no status is assigned to a response after its DSL function has run (shared with C03). (R05.12) every scoped Error(name) lookup searches its own errors before it asks the enclosing scope, and the API level last. NOT decided: name-based dispatch for arbitrary designs end to end (needs execution of generated code), equality of attribute values across the wire."
 
 func runC05(c *an.Ctx) string {
 	r05ErrorEncoder(c)
@@ -24,6 +27,7 @@ func runC05(c *an.Ctx) string {
 	r181MergeErrors(c)            // shared with C18 (rule id R18.1): merging never drops an error already recorded
 	r021NameTables(c)             // shared with C02 (rule id R02.1): an inherited error response keeps its attribute→header/cookie renames when it is copied
 	dslDefaultStatus(c, "R05.11") // shared with C03/R03.1: the default status of an error response (400) never overwrites a Code() set in its DSL
+	r0512ScopedLookup(c, "R05.12")
 	return explanationC05
 }
 
@@ -260,4 +264,68 @@ func r05Templates(c *an.Ctx) {
 	tplRangeIndexRule(c, "R05.9", "http/codegen/templates")
 	c.Check(len(writers) > 0 && len(readers) > 0, "R05.8", "goa-error header", 0, fmt.Sprintf("the error name crosses the wire under one header constant (written by %v, read by %v)", writers, readers),
 		fmt.Sprintf("goa-error header writers=%v readers=%v", writers, readers))
+}
+
+// r0512ScopedLookup (R05.12): an error name is resolved from the innermost scope outwards: a method's own errors,
+// then its service's, then the API's. Each Error(name) lookup of package expr searches its own list first and only
+// then asks the enclosing scope: the range over the own list dominates the call that delegates outwards. The other
+// order lets an API-level error of the same name shadow the service's (another type, another status): the generated
+// encoder then matches the wrong error type and the declared error no longer reaches the client.
+func r0512ScopedLookup(c *an.Ctx, rule string) {
+	n := 0
+	for _, f := range c.AllFuncs("expr") {
+		if f.Decl.Recv == nil || f.Decl.Name.Name != "Error" || f.Decl.Type.Params.NumFields() != 1 {
+			continue
+		}
+		if res := f.Decl.Type.Results; res == nil || len(res.List) != 1 || !strings.HasSuffix(types.ExprString(res.List[0].Type), "ErrorExpr") {
+			continue
+		}
+		info := f.Pkg.TypesInfo
+		g := an.NewCFG(info, f.Decl.Body)
+		var loops, outward []an.Loc
+		var outPos token.Pos
+		ast.Inspect(f.Decl.Body, func(nd ast.Node) bool {
+			switch x := nd.(type) {
+			case *ast.RangeStmt:
+				if fv := an.FieldOf(info, x.X); fv != nil && an.CanonFieldName(fv) == "Errors" {
+					// go/cfg keeps the range expression in the block before the loop
+					if loc, ok := g.LocOf(x.X); ok {
+						loops = append(loops, loc)
+					}
+				}
+			case *ast.CallExpr:
+				if se, ok := an.Unparen(x.Fun).(*ast.SelectorExpr); ok && se.Sel.Name == "Error" && len(x.Args) == 1 {
+					if loc, ok := g.LocOf(x); ok {
+						if root := an.RootIdent(se.X); root != nil && an.CanonGlobalNameOf(info, root) == "Root" {
+							// the outermost scope: the API
+							outward = append(outward, loc)
+							outPos = x.Pos()
+						} else {
+							// a narrower scope that searches its own list first (checked on its own)
+							loops = append(loops, loc)
+						}
+					}
+				}
+			}
+			return true
+		})
+		if len(loops) == 0 && len(outward) == 0 {
+			continue
+		}
+		n++
+		ok := true
+		for _, o := range outward {
+			first := false
+			for _, l := range loops {
+				if g.LocDominates(l, o) && l != o {
+					first = true
+				}
+			}
+			if !first {
+				ok = false
+			}
+		}
+		c.Check(ok, rule, c.RefName(f)+"#precedence", outPos, "the own errors are searched before the enclosing scope is asked", "the lookup asks the enclosing scope before (or without) searching its own errors: an outer error of the same name shadows the inner one")
+	}
+	c.Floor(rule, n, 4, "scoped Error(name) lookups in package expr")
 }
